@@ -2,6 +2,7 @@ mod common;
 mod hist;
 mod obs_storage;
 mod refserver;
+mod rep;
 
 use common::*;
 use std::io::Write;
@@ -163,6 +164,94 @@ fn run_hist(args: &Args) {
     std::fs::write(args.out.join("stats.json"), format!("{{{}}}\n", body.join(", "))).unwrap();
 }
 
+fn run_rep(args: &Args) {
+    std::fs::create_dir_all(&args.out).unwrap();
+    let mut ops = std::io::BufWriter::new(std::fs::File::create(args.out.join("ops.txt")).unwrap());
+    let mut imp = std::io::BufWriter::new(std::fs::File::create(args.out.join("impl.out")).unwrap());
+    let mut stats: std::collections::HashMap<String, u64> = std::collections::HashMap::new();
+    // replay / corpus cases first
+    let mut fixed: Vec<(String, bool, Vec<String>)> = Vec::new();
+    let mut files: Vec<PathBuf> = Vec::new();
+    if let Some(r) = &args.replay {
+        files.push(r.clone());
+    } else if let Some(c) = &args.corpus {
+        if let Ok(rd) = std::fs::read_dir(c) {
+            let mut fs: Vec<PathBuf> = rd.filter_map(|e| e.ok().map(|e| e.path())).collect();
+            fs.sort();
+            files.extend(fs);
+        }
+    }
+    for f in &files {
+        for (ci, (hdr, lines)) in read_cases(f).into_iter().enumerate() {
+            let sql = hdr.contains("sqlite=1");
+            let name = f.file_name().unwrap().to_string_lossy().to_string();
+            let wild = if hdr.contains("wild=1") { " wild=1" } else { "" };
+            fixed.push((format!("# case corpus:{}#{} sqlite={}{}", name, ci, sql as u8, wild), sql, lines));
+        }
+    }
+    let mut run_case = |hdr: String, sql: bool, lines: Option<Vec<String>>, crng: Option<Rng>, len: usize| {
+        let wild = hdr.contains("wild=1");
+        writeln!(ops, "{}", hdr).unwrap();
+        writeln!(imp, "{}", hdr).unwrap();
+        let result = std::panic::catch_unwind(std::panic::AssertUnwindSafe(|| {
+            let mut h = rep::RepRun::new(sql);
+            h.wild = wild;
+            let mut o = Vec::new();
+            let mut i = Vec::new();
+            let mut crng = crng;
+            let total = lines.as_ref().map(|l| l.len()).unwrap_or(len);
+            for k in 0..total {
+                let l = match &lines {
+                    Some(ls) => ls[k].clone(),
+                    None => h.gen_line(crng.as_mut().unwrap()),
+                };
+                let (nl, outs) = h.exec(&l);
+                i.push(format!("> {}", nl));
+                o.push(nl);
+                i.extend(outs);
+                // every action is followed by a dump
+                if l != "Q" && l != "G" {
+                    let (nl, outs) = h.exec("Q");
+                    i.push("> Q".to_string());
+                    o.push(nl);
+                    i.extend(outs);
+                }
+            }
+            (o, i, h.stats.clone())
+        }));
+        match result {
+            Ok((o, i, st)) => {
+                for l in o { writeln!(ops, "{}", l).unwrap(); }
+                for l in i { writeln!(imp, "{}", l).unwrap(); }
+                for (k, v) in st { *stats.entry(k).or_insert(0) += v; }
+                *stats.entry("cases".into()).or_insert(0) += 1;
+            }
+            Err(_) => {
+                writeln!(imp, "panic").unwrap();
+                *stats.entry("panics".into()).or_insert(0) += 1;
+            }
+        }
+    };
+    for (hdr, sql, lines) in fixed {
+        let lines: Vec<String> = lines.into_iter().filter(|l| l != "Q").collect();
+        run_case(hdr, sql, Some(lines), None, 0);
+    }
+    if args.replay.is_none() {
+        let mut rng = Rng::new(args.seed);
+        for i in 0..args.cases {
+            let mut crng = rng.fork();
+            let sql = crng.chance(1, 3);
+            let len = 3 + crng.below(args.max_len as u64 - 2) as usize;
+            let wild = crng.chance(1, 4);
+            run_case(format!("# case {} seed={} sqlite={} wild={}", i, args.seed, sql as u8, wild as u8), sql, None, Some(crng), len);
+        }
+    }
+    let mut keys: Vec<&String> = stats.keys().collect();
+    keys.sort();
+    let body: Vec<String> = keys.iter().map(|k| format!("\"{}\": {}", k, stats[*k])).collect();
+    std::fs::write(args.out.join("stats.json"), format!("{{{}}}\n", body.join(", "))).unwrap();
+}
+
 fn main() {
     let a: Vec<String> = std::env::args().skip(1).collect();
     if a.is_empty() {
@@ -172,6 +261,7 @@ fn main() {
     let args = parse_args(&a[1..]);
     match a[0].as_str() {
         "hist" => run_hist(&args),
+        "rep" => run_rep(&args),
         f => {
             eprintln!("unknown family {}", f);
             std::process::exit(2);
